@@ -202,6 +202,7 @@ type loopFrame struct {
 	arrs  map[string][]string
 	all   bool
 	auto  []autoArr
+	whole map[string]bool
 }
 
 type autoArr struct {
